@@ -6,6 +6,7 @@ import (
 	"sync"
 	"sync/atomic"
 
+	"github.com/fatedier/frp/pkg/util/verifhook"
 	"github.com/fatedier/frp/pkg/util/vhost"
 )
 
@@ -39,6 +40,7 @@ func (ctl *HTTPGroupController) Register(
 		ctl.groups[indexKey] = g
 	}
 	ctl.mu.Unlock()
+	verifhook.At("httpgroup.register.lookedup", proxyName)
 
 	return g.Register(proxyName, group, groupKey, routeConfig)
 }
